@@ -266,7 +266,6 @@ impl Model {
     ) -> (BTreeMap<usize, usize>, Vec<usize>) {
         let mut map = BTreeMap::new();
         let mut fresh = vec![];
-        let pos0 = self.pos;
         self.apply_merge_rec(h, 0, left, resolve, errs, &mut map, &mut fresh);
         let mut sorted = fresh.clone();
         sorted.sort_unstable();
@@ -278,8 +277,8 @@ impl Model {
             if *id >= self.cap {
                 errs.push(format!("merge created id {id} >= capacity {}", self.cap));
             }
-            if self.track_returned && (self.returned.contains(id) || *id < pos0) {
-                errs.push(format!("merge created id {id} that next_id() had returned before (returned={:?}, pos={pos0})", self.returned));
+            if self.track_returned && self.returned.contains(id) {
+                errs.push(format!("merge created id {id} that next_id() had returned before (returned={:?})", self.returned));
             }
         }
         for id in &fresh {
